@@ -7,7 +7,8 @@
               Color = enum(red, green)
      urn:app: Circle{x: Unicode}                                                (unrelated, same NAME as tns:Circle)
      f(shape: Shape, n: Integer, s: Unicode, d: Date, col: Color, xs: Array(Integer), ps: Array(Person), p: Person,
-       fl: Double, b: Boolean, cs: Array(Circle), ss: Array(Shape), aa: Array(Array(Unicode)), de: Decimal) -> Integer
+       fl: Double, b: Boolean, cs: Array(Circle), ss: Array(Shape), aa: Array(Array(Unicode)), de: Decimal,
+       u: Uuid, ba: ByteArray, tg: Tagged{tag: XML attribute Unicode, v: Integer}) -> Integer
      g(c: {urn:app}Circle) -> Integer
    A valid request for f is mutated at ONE position by one type-directed operator; the
    server is the same for all mutants of a run (so consecutive requests can interfere).
@@ -25,6 +26,7 @@ App == "urn:app"
 Prim(p) == [k |-> "prim", p |-> p]
 Cls(ns, name) == [k |-> "obj", ns |-> ns, name |-> name]
 ArrOf(t) == [k |-> "arr", of |-> t]
+AttrOf(t) == [k |-> "attr", of |-> t]       \* an XML attribute member (an ordinary member in dict documents and flat keys)
 Enum == [k |-> "enum", name |-> "Color"]
 \* flat fields (ancestors first) of every class of the interface
 FieldsOf(ns, name) ==
@@ -33,16 +35,18 @@ FieldsOf(ns, name) ==
     [] ns = Tns /\ name = "Square" -> << <<"s1", Prim("Integer")>>, <<"w", Prim("Integer")>> >>
     [] ns = Tns /\ name = "Person" -> << <<"name", Prim("Unicode")>>, <<"age", Prim("Integer")>>, <<"born", Prim("Date")>> >>
     [] ns = App /\ name = "Circle" -> << <<"x", Prim("Unicode")>> >>
+    [] ns = Tns /\ name = "Tagged" -> << <<"tag", AttrOf(Prim("Unicode"))>>, <<"v", Prim("Integer")>> >>
     [] ns = Tns /\ name = "Session" -> << <<"token", Prim("Unicode")>>, <<"n", Prim("Integer")>>, <<"d", Prim("Date")>> >>
     [] OTHER -> <<>>
-Classes == {<<Tns, "Shape">>, <<Tns, "Circle">>, <<Tns, "Square">>, <<Tns, "Person">>, <<App, "Circle">>, <<Tns, "Session">>}
+Classes == {<<Tns, "Shape">>, <<Tns, "Circle">>, <<Tns, "Square">>, <<Tns, "Person">>, <<App, "Circle">>, <<Tns, "Session">>, <<Tns, "Tagged">>}
 \* a class and its registered descendants
 Family(ns, name) == IF ns = Tns /\ name = "Shape" THEN {<<Tns, "Shape">>, <<Tns, "Circle">>, <<Tns, "Square">>} ELSE {<<ns, name>>}
 Args == << <<"shape", Cls(Tns, "Shape")>>, <<"n", Prim("Integer")>>, <<"s", Prim("Unicode")>>, <<"d", Prim("Date")>>, <<"col", Enum>>,
            <<"xs", ArrOf(Prim("Integer"))>>, <<"ps", ArrOf(Cls(Tns, "Person"))>>, <<"p", Cls(Tns, "Person")>>,
            <<"fl", Prim("Double")>>, <<"b", Prim("Boolean")>>,
            <<"cs", ArrOf(Cls(Tns, "Circle"))>>, <<"ss", ArrOf(Cls(Tns, "Shape"))>>,
-           <<"aa", ArrOf(ArrOf(Prim("Unicode")))>>, <<"de", Prim("Decimal")>> >>
+           <<"aa", ArrOf(ArrOf(Prim("Unicode")))>>, <<"de", Prim("Decimal")>>,
+           <<"u", Prim("Uuid")>>, <<"ba", Prim("ByteArray")>>, <<"tg", Cls(Tns, "Tagged")>> >>
 \* the SOAP request header of the service (delivered to user code as ctx.in_header)
 Header == Cls(Tns, "Session")
 
@@ -61,7 +65,10 @@ Positions == { [path |-> <<"shape">>, t |-> Cls(Tns, "Shape")], [path |-> <<"sha
                [path |-> <<"aa">>, t |-> ArrOf(ArrOf(Prim("Unicode")))], [path |-> <<"aa", "0">>, t |-> ArrOf(Prim("Unicode"))],
                [path |-> <<"aa", "0", "0">>, t |-> Prim("Unicode")],
                \* a decimal travels as text in the dict documents: a NUMBER (or a boolean) of the document is not a decimal
-               [path |-> <<"de">>, t |-> Prim("Decimal")] }
+               [path |-> <<"de">>, t |-> Prim("Decimal")],
+               \* a uuid is a restriction of string in the schema - a string is not a uuid; binary data is text (base64) or bin, no other kind
+               [path |-> <<"u">>, t |-> Prim("Uuid")], [path |-> <<"ba">>, t |-> Prim("ByteArray")],
+               [path |-> <<"tg">>, t |-> Cls(Tns, "Tagged")], [path |-> <<"tg", "tag">>, t |-> AttrOf(Prim("Unicode"))] }
 \* positions inside the SOAP header (XML family, SOAP protocols only)
 HeaderPositions == { [path |-> <<"@hdr">>, t |-> Header], [path |-> <<"@hdr", "token">>, t |-> Prim("Unicode")],
                      [path |-> <<"@hdr", "n">>, t |-> Prim("Integer")], [path |-> <<"@hdr", "d">>, t |-> Prim("Date")] }
@@ -75,7 +82,8 @@ RetagTargets == Classes \cup {<<Xs, "string">>, <<Xs, "int">>, <<Xs, "integer">>
                               <<Tns, "integerArray">>, <<Tns, "PersonArray">>, <<Tns, "ShapeArray">>, <<Tns, "CircleArray">>}
 \* leaf texts that are not values of the slot but NAME something: attributes of the model classes, other types' literals
 HostileTexts == {"Attributes", "__values__", "__type_name__", "validate_string", "mro", "__class__", "blue", "", "1e3", "2020-13-45", "None", "True"}
-XmlMutants == {[fam |-> "xml", pos |-> p, op |-> "retag", arg |-> q] : p \in Positions \cup HeaderPositions, q \in RetagTargets}
+\* (an attribute has no markup of its own to mutate: its positions are for the dict and flat families)
+XmlMutants == {[fam |-> "xml", pos |-> p, op |-> "retag", arg |-> q] : p \in {x \in Positions : x.t.k # "attr"} \cup HeaderPositions, q \in RetagTargets}
               \cup {[fam |-> "xml", pos |-> p, op |-> "text", arg |-> <<x, "">>] : p \in {q \in Positions : IsLeaf(q.t)}, x \in HostileTexts}
               \cup {[fam |-> "xml", pos |-> p, op |-> "struct", arg |-> <<"", "">>] : p \in {q \in Positions : IsLeaf(q.t)}}
               \cup {[fam |-> "xml", pos |-> p, op |-> "textonly", arg |-> <<"abc", "">>] : p \in {q \in Positions : ~IsLeaf(q.t)}}
@@ -94,13 +102,14 @@ Mutants == XmlMutants \cup DictMutants \cup WrapMutants \cup FlatMutants
 
 \* ---- what the driver reports for a delivered value (its SHAPE):
 \*   <<"nil">> | <<"leaf", kind>> | <<"obj", ns, name, <<shape per flat field of THAT class>>>> | <<"seq", <<shapes>>>>
-NativeKind(p) == CASE p = "Integer" -> "int" [] p = "Unicode" -> "str" [] p = "Date" -> "date" [] p = "Boolean" -> "bool" [] p = "Double" -> "float" [] p = "Decimal" -> "decimal" [] OTHER -> "?"
+NativeKind(p) == CASE p = "Integer" -> "int" [] p = "Unicode" -> "str" [] p = "Date" -> "date" [] p = "Boolean" -> "bool" [] p = "Double" -> "float" [] p = "Decimal" -> "decimal" [] p = "Uuid" -> "uuid" [] p = "ByteArray" -> "bytes" [] OTHER -> "?"
 RECURSIVE Conforms(_, _)
 Conforms(t, s) ==
   IF s = <<"nil">> THEN TRUE
   \* (Python's bool IS an int: True in an Integer slot is an instance of the declared native type)
   \* (and an int in a Double slot is the same number: documents with one number kind cannot tell 5 from 5.0)
   ELSE IF t.k = "prim" THEN s[1] = "leaf" /\ (s[2] = NativeKind(t.p) \/ (t.p = "Integer" /\ s[2] = "bool") \/ (t.p = "Double" /\ s[2] = "int"))
+  ELSE IF t.k = "attr" THEN Conforms(t.of, s)
   ELSE IF t.k = "enum" THEN s[1] = "leaf" /\ s[2] \in {"enum:red", "enum:green"}
   ELSE IF t.k = "arr" THEN s[1] = "seq" /\ \A k \in 1..Len(s[2]) : Conforms(t.of, s[2][k])
   ELSE /\ s[1] = "obj" /\ <<s[2], s[3]>> \in Family(t.ns, t.name)
